@@ -58,3 +58,33 @@ package metadata
 //@     invariant [not-among-the-scanned] forall(k, 0, rangeindex+1, sortedTableSlice[k].SegmentKey != key)
 //@   ensures [segment-gone-from-its-index] implies(tName != "" && haskey(hm.tableSortedMetadata, tName), forall(k, 0, len(hm.tableSortedMetadata[tName]), hm.tableSortedMetadata[tName][k].SegmentKey != key))
 //@ end
+
+// C13 (deleting an index removes all of its data and nothing else), in-memory
+// metadata.  deleteTable(table, org):
+//  - every segment of the organisation that was listed under the table when
+//    the deletion started is handed to deleteSegmentKeyWithLock (ghost tblDel
+//    marks the keys handed over; keyId is an uninterpreted naming of keys, so
+//    the statement holds for the injective ones too).  The keys are collected
+//    BEFORE anything is removed: deleteSegmentKeyWithLock shifts the very
+//    array the table's slice lives in.
+//  - the table entry, which also lists the segments of OTHER organisations
+//    that own an index of the same name, is dropped only when no segment is
+//    left under it.
+//@ ghostdecl tblDel int
+//@ func (*allSegmentMetadata).deleteTable
+//@   props C13
+//@   assumecalleerequires
+//@   note the representation invariants deleteSegmentKeyWithLock requires (keys unique per index, separate arrays) are assumed at its calls here: each call rewrites the structure and the callee's contract does not re-establish them
+//@   requires hm != nil
+//@   ghostinit forallkey(s, string, ghostat(0, uf("keyId", int64, s), "tblDel") == 0)
+//@   loop 1:
+//@     invariant [collected-so-far] forallkey(s, string, forall(k, 0, rangeindex+1, implies(tableSegments[k].OrgId == orgid && tableSegments[k].SegmentKey == s, haskey(allSegKeysInTable, s))))
+//@   loop 2:
+//@     invariant [visited-keys-were-handed-over] forallkey(s, string, implies(visited(2, s), ghostat(0, uf("keyId", int64, s), "tblDel") == 1))
+//@   site call hm.deleteSegmentKeyWithLock #1:
+//@     ghostset ghostat(0, uf("keyId", int64, arg1), "tblDel") = 1
+//@   ensures [every-segment-of-the-org-is-handed-to-the-remover] implies(old(haskey(hm.tableSortedMetadata, table)), forallkey(s, string, forall(k, 0, old(len(hm.tableSortedMetadata[table])), implies(old(hm.tableSortedMetadata[table][k].OrgId) == orgid && old(hm.tableSortedMetadata[table][k].SegmentKey) == s, ghostat(0, uf("keyId", int64, s), "tblDel") == 1))))
+//@   site call delete #1:
+//@     assert [table-entry-dropped-only-when-no-segment-is-left-under-it] len(hm.tableSortedMetadata[table]) == 0
+//@   bounded metadata/deletetable_test.go Test_Bounded_DeleteTable n<=7 segments of one organisation under the deleted index (with and without ties in the sort key), m<=2 segments of another index (48 inputs): nothing of the deleted index is left in the three in-memory structures, the other index keeps everything
+//@ end
